@@ -5,7 +5,7 @@
    patterns' regular expressions). No compiled automaton is mentioned in the conclusion's right-hand
    side: it only talks about the source patterns. *)
 From Scnr Require Import Base Regex Automaton FindFrom FindFromProofs ModeProofs Spec SpecRun Iter IterRun
-  RuleProofs SpecProofs SpecFirstProofs Nfa NfaProofs Minimizer MinimizerProofs Compile CompileProofs ExtProofs.
+  RuleProofs SpecProofs SpecFirstProofs Nfa NfaProofs Minimizer MinimizerProofs Compile CompileProofs OkProofs ExtProofs.
 
 (* ---------- source patterns and modes ---------- *)
 Record src_pat := { s_tok : N; s_ast : ast; s_la : option (bool * ast) }.
@@ -175,6 +175,25 @@ Proof.
     + inversion E; subst. exact IH.
 Qed.
 
+Lemma build_las_ok : forall ps L, build_las ps = Some L -> forall t pos D, In (t, (pos, D)) L -> dfa_ok D.
+Proof.
+  induction ps as [|p ps IH]; intros L E t pos D Hin; cbn in E.
+  - inversion E; subst. destruct Hin.
+  - destruct (build_las ps) as [L'|]; [|discriminate]. destruct (s_la p) as [[pos0 a]|].
+    + destruct (compile_la a) as [D0| |] eqn:ED; try discriminate. inversion E; subst.
+      destruct Hin as [Hin|Hin]; [inversion Hin; subst; eapply compile_la_dfa_ok; eauto|eapply IH; eauto].
+    + inversion E; subst. eapply IH; eauto.
+Qed.
+(* every accepting token type of a built mode is listed in terminal_ids: priority_of never unwraps None *)
+Theorem build_mode_ok m cm : build_mode m = Some cm -> mode_ok (aut cm).
+Proof.
+  unfold build_mode. destruct (compile_mode (pats_of (s_pats m))) as [A| |] eqn:EA; try discriminate.
+  destruct (build_las (s_pats m)) as [L|] eqn:EL; [|discriminate]. intros E; inversion E; subst cm. cbn [aut].
+  split; cbn [main las].
+  - eapply compile_mode_dfa_ok; eauto.
+  - intros t pos D Hn. apply nassoc_in in Hn. eapply build_las_ok; eauto.
+Qed.
+
 (* ---------- one mode ---------- *)
 Section OneMode.
 Variable tbl : N -> N -> bool.
@@ -184,17 +203,17 @@ Variable sm : smode.
 Hypothesis Hb : build_mode m = Some cm.
 Hypothesis Hs : spec_mode m = Some sm.
 Hypothesis Hv : mode_valid m.
-Hypothesis Hok : mode_okb (aut cm) = true.
 
 Theorem compiled_find_is_specification s : find_mode tbl (aut cm) s = Ok (best_cand tbl (sm_pats sm) s).
 Proof.
+  pose proof (build_mode_ok m cm Hb) as Hok.
   unfold build_mode in Hb. destruct (compile_mode (pats_of (s_pats m))) as [A| |] eqn:EA; try discriminate.
   destruct (build_las (s_pats m)) as [L|] eqn:EL; [|discriminate]. inversion Hb; subst cm. clear Hb. cbn [aut] in *.
   unfold spec_mode in Hs. destruct (all_some _) as [sps|] eqn:Es; [|discriminate]. inversion Hs; subst sm. clear Hs. cbn [sm_pats].
   apply all_some_forall2 in Es. fold mk in Es.
   destruct Hv as (Hnd & Hp & Hw).
   apply (find_mode_eq_best_cand_la tbl tbl {| main := A; las := L |} sps).
-  - apply mode_okb_ok. exact Hok.
+  - exact Hok.
   - cbn [main]. rewrite (compile_mode_tids_eq _ _ EA), (spec_toks _ _ Es). unfold pats_of. rewrite map_map. reflexivity.
   - rewrite (spec_toks _ _ Es). exact Hnd.
   - cbn [main]. apply (compile_mode_correct tbl (pats_of (s_pats m)) A); auto.
@@ -221,7 +240,6 @@ Variable sms : list smode.
 Hypothesis Hb : build_scanner l = Some cms.
 Hypothesis Hs : spec_of_scanner l = Some sms.
 Hypothesis Hv : forall m, In m l -> mode_valid m.
-Hypothesis Hok : forall cm, In cm cms -> mode_okb (aut cm) = true.
 
 Lemma modes_related i :
   match nth_error cms i, nth_error sms i with
@@ -243,7 +261,7 @@ Proof.
   cbn [sc_find impl_scanner spec_scanner]. pose proof (modes_related i) as H.
   destruct (nth_error cms i) as [cm|] eqn:Ec; destruct (nth_error sms i) as [sm|]; try destruct H; try reflexivity.
   destruct H as (Hin & Hbm & Hsm).
-  apply (compiled_find_is_specification tbl x cm sm Hbm Hsm (Hv x Hin)). apply Hok. eapply nth_error_In; eauto.
+  apply (compiled_find_is_specification tbl x cm sm Hbm Hsm (Hv x Hin)).
 Qed.
 Lemma trans_agrees i : sc_trans (impl_scanner tbl cms) i = sc_trans (spec_scanner tbl sms) i.
 Proof.
@@ -316,7 +334,7 @@ Definition enc_cmode (cm:cmode) : list (list N) * list N * list (N * (bool * lis
 Definition capstone_check (l:list src_mode) :=
   match build_scanner l, spec_of_scanner l with
   | Some cms, Some sms =>
-      if forallb mode_validb l && forallb (fun cm => mode_okb (aut cm)) cms then Some (map enc_cmode cms) else None
+      if forallb mode_validb l then Some (map enc_cmode cms) else None
   | _, _ => None
   end.
 
@@ -329,12 +347,11 @@ Theorem capstone_check_sound l e : capstone_check l = Some e ->
 Proof.
   unfold capstone_check. destruct (build_scanner l) as [cms|] eqn:Eb; [|discriminate].
   destruct (spec_of_scanner l) as [sms|] eqn:Es; [|discriminate].
-  destruct (forallb mode_validb l && forallb (fun cm => mode_okb (aut cm)) cms) eqn:Ec; [|discriminate].
-  intros E; inversion E; subst e. apply andb_true_iff in Ec as (Hv & Hok). rewrite forallb_forall in Hv, Hok.
+  destruct (forallb mode_validb l) eqn:Hv; [|discriminate].
+  intros E; inversion E; subst e. rewrite forallb_forall in Hv.
   exists cms, sms. split; [reflexivity|]. split; [reflexivity|]. split; [reflexivity|].
   intros tbl ops st. apply (compiled_scanner_is_specification tbl l cms sms Eb Es).
-  - intros m Hin. apply mode_validb_ok. apply Hv. exact Hin.
-  - exact Hok.
+  intros m Hin. apply mode_validb_ok. apply Hv. exact Hin.
 Qed.
 Lemma ex_src_check : exists e, capstone_check ex_src = Some e /\ length e = 2.
 Proof. destruct (capstone_check ex_src) as [e|] eqn:E; [|vm_compute in E; discriminate]. exists e. split; [reflexivity|]. vm_compute in E. inversion E; reflexivity. Qed.
